@@ -34,13 +34,47 @@ theorem prS_okS_root (env : Env) (sep : Str) (s : Schema) (e : Elem) (hw : wf s 
     OkS env s (prS env sep false s e) :=
   prS_okS s hw hbs has false e hok
 
+/-- a Compound-free schema has no Compound state to be incomplete -/
+theorem compoundsFull_of_compoundFree : ∀ s : Schema, compoundFree s = true →
+    ∀ e : Elem, compoundsFull s e = true := by
+  intro s
+  induction s using schema_ind with
+  | hleaf nm o k => intro _ e; cases e <;> simp [compoundsFull]
+  | hjoined nm o k mem => intro _ e; cases e <;> simp [compoundsFull]
+  | harray nm o p member ih => intro _ e; cases e <;> simp [compoundsFull]
+  | hcompound nm o k fields ih => intro hcf; simp [compoundFree] at hcf
+  | hdict nm o mode fields ih =>
+    intro hcf e
+    simp only [compoundFree] at hcf
+    cases e with
+    | dict ms =>
+      simp only [compoundsFull]
+      exact compoundsFullMs_of (fun f hf e _ => ih f hf (compoundFree_of_mem hcf f hf) e)
+    | _ => simp [compoundsFull]
+  | hlist nm o p mx member ih =>
+    intro hcf e
+    simp only [compoundFree] at hcf
+    cases e with
+    | list ms =>
+      simp only [compoundsFull, List.all_eq_true]
+      exact fun m _ => ih hcf m
+    | _ => simp [compoundsFull]
+
+/-- `prS` is idempotent on flattened output (Compounds allowed: every Compound state holds all its
+    fields) -/
+theorem flatten_prS_prS_full (env : Env) (sep sep' : Str) (s : Schema) (u : Bool) (e : Elem)
+    (hw : wf s = true) (hbs : blankSettled env s = true) (hpf : prefixFree s = true)
+    (hcf : compoundsFull s e = true) (has : arraysScalar s = true) (hok : OkS env s e) :
+    flatten env sep' s (prS env sep u s (prS env sep u s e)) = flatten env sep' s (prS env sep u s e) :=
+  flatten_prS_of_stable env sep sep' s u _ hw (prS_okS s hw hbs has u e hok)
+    (stableS_prS s ⟨hw, hpf, hbs, has⟩ u e hok hcf)
+
 /-- `prS` is idempotent on flattened output -/
 theorem flatten_prS_prS (env : Env) (sep sep' : Str) (s : Schema) (u : Bool) (e : Elem)
     (hw : wf s = true) (hbs : blankSettled env s = true) (hpf : prefixFree s = true)
     (hcf : compoundFree s = true) (has : arraysScalar s = true) (hok : OkS env s e) :
     flatten env sep' s (prS env sep u s (prS env sep u s e)) = flatten env sep' s (prS env sep u s e) :=
-  flatten_prS_of_stable env sep sep' s u _ hw hcf (prS_okS s hw hbs has u e hok)
-    (stableS_prS s ⟨hw, hpf, hcf, hbs, has⟩ u e hok)
+  flatten_prS_prS_full env sep sep' s u e hw hbs hpf (compoundsFull_of_compoundFree s hcf e) has hok
 
 /-- the full statement (Compounds and SparseDicts mixed): not proved in this round -/
 def C01_Sparse_Second_Full : Prop :=
@@ -62,6 +96,23 @@ theorem roundtrip_sparse_second_flat_partial (env : Env) (sep : Str) (s : Schema
     roundtrip_sparse env sep s _ hs henv hw hroot (prS_okS s hw hbs has false e hok)]
   exact flatten_prS_prS env sep sep s false e hw hbs hpf hcf has hok
 
+/-- **C01, second round trip, SparseDicts AND Compounds.**  The same for every well-formed schema —
+    Compounds and SparseDicts mixed at any depth — and every conforming state whose Compound states
+    hold all their declared fields in order (`compoundsFull`, decidable; true of every real Compound:
+    `Compound.__init__` creates every field and nothing removes one).  `OkS` alone lets a Compound
+    state hold a subset of its fields; then trip 1 adds the missing ones blank and the Compound's own
+    text `env.compose k …` is composed from a different list.  `_partial`: `compoundsFull`,
+    `arraysScalar`. -/
+theorem roundtrip_sparse_second_flat_compound_partial (env : Env) (sep : Str) (s : Schema) (e : Elem)
+    (hs : SepSafe env sep (Tok s)) (henv : EnvOK env) (hw : wf s = true) (hroot : rootOK s = true)
+    (hbs : blankSettled env s = true) (hpf : prefixFree s = true)
+    (hcf : compoundsFull s e = true) (has : arraysScalar s = true) (hok : OkS env s e) :
+    flatten env sep s (fromFlat env sep s (flatten env sep s (fromFlat env sep s (flatten env sep s e))))
+      = flatten env sep s (fromFlat env sep s (flatten env sep s e)) := by
+  rw [roundtrip_sparse env sep s e hs henv hw hroot hok,
+    roundtrip_sparse env sep s _ hs henv hw hroot (prS_okS s hw hbs has false e hok)]
+  exact flatten_prS_prS_full env sep sep s false e hw hbs hpf hcf has hok
+
 /-- the third, fourth, … trips rebuild the flat output of the first as well: the rebuilt tree is
     normal, conforming and stable, and stays so -/
 theorem roundtrip_sparse_rebuilt (env : Env) (sep : Str) (s : Schema) (e : Elem)
@@ -73,7 +124,7 @@ theorem roundtrip_sparse_rebuilt (env : Env) (sep : Str) (s : Schema) (e : Elem)
     StableS env sep false s (fromFlat env sep s (flatten env sep s e)) := by
   rw [roundtrip_sparse env sep s e hs henv hw hroot hok]
   exact ⟨prS_okS s hw hbs has false e hok, prS_sparseNormal s hw false e hok,
-    stableS_prS s ⟨hw, hpf, hcf, hbs, has⟩ false e hok⟩
+    stableS_prS s ⟨hw, hpf, hbs, has⟩ false e hok (compoundsFull_of_compoundFree s hcf e)⟩
 
 /-! ### non-vacuity: a `sparseReq` SparseDict in a pruning List of Dicts — trip 1 prunes a member,
     drops an empty optional member and reorders; trip 2 is the identity -/
